@@ -58,12 +58,22 @@ Init == \/ /\ fam \in Fams \cap {"bytes", "soup"} /\ src = <<>> /\ n = 0
 
 Chunks(f) == IF f = "bytes" THEN {<<b>> : b \in Alpha} ELSE {t \o p : t \in Toks, p \in Seps}
 
-Next == \/ /\ fam \in {"bytes", "soup"} /\ n < target
+\* (In simulation mode TLC evaluates every successor of a state before picking one; a random source is
+\* therefore grown with RandomElement -- one successor per step, drawn from TLC's seeded generator --
+\* and exported in a separate last step.  Under BFS every source is exported when it is created.)
+Next == \/ /\ ~Sim /\ fam \in {"bytes", "soup"} /\ n < target
            /\ \E c \in Chunks(fam) :
                 /\ src' = src \o c
                 /\ n' = n + 1
-                /\ ((~Sim \/ n' = target) => Emit(fam, src'))
+                /\ Emit(fam, src')
            /\ UNCHANGED <<fam, target>>
+        \/ /\ Sim /\ fam \in {"bytes", "soup"} /\ n < target
+           /\ src' = src \o RandomElement(Chunks(fam))
+           /\ n' = n + 1
+           /\ UNCHANGED <<fam, target>>
+        \/ /\ Sim /\ fam \in {"bytes", "soup"} /\ n = target
+           /\ Emit(fam, src)
+           /\ n' = n + 1 /\ UNCHANGED <<fam, src, target>>
         \/ /\ fam = "file" /\ target = 0
            /\ Out("file", Srcs[n].src, Srcs[n].rx)
            /\ target' = 1 /\ UNCHANGED <<fam, src, n>>
